@@ -20,7 +20,8 @@ import tlc
 ALG = {'sha1': ('http://www.w3.org/2000/09/xmldsig#rsa-sha1', 'http://www.w3.org/2000/09/xmldsig#sha1'),
        'sha256': ('http://www.w3.org/2001/04/xmldsig-more#rsa-sha256', 'http://www.w3.org/2001/04/xmlenc#sha256')}
 NAMEID = {'transient': 'urn:oasis:names:tc:SAML:2.0:nameid-format:transient',
-          'persistent': 'urn:oasis:names:tc:SAML:2.0:nameid-format:persistent'}
+          'persistent': 'urn:oasis:names:tc:SAML:2.0:nameid-format:persistent',
+          'email': 'urn:oasis:names:tc:SAML:1.1:nameid-format:emailAddress'}
 B = {'post': env.BINDING_POST, 'redirect': env.BINDING_REDIRECT, 'soap': env.BINDING_SOAP}
 _PAIR = {}
 AUTHN = {'password_authority': {'class_ref': sb.PASSWORD, 'authn_auth': 'https://authority.example'},
@@ -127,6 +128,8 @@ def replay_in_zone(case):
         identity = dict(({'givenName': 'GivenName', 'sn': 'SN', 'mail': 'MAIL'}.get(k, k), v) for k, v in identity.items())
     now = spc.now()
     subject = 'subject-' + ('%06d' % rng.randint(0, 999999))
+    if scn['nameid'] == 'email':
+        subject = 'Alice.Liddell-%s@Example.ORG' % subject
     subject = {'ascii': subject, 'astral': u'\U00020000\U0001F600-' + subject, 'padded': u' \t' + subject + u' \u00a0\u3000 ',
                'markup': '<' + subject + '>&"\''}[scn.get('subjClass', 'ascii')]
     sign_alg, digest_alg = ALG[scn['alg']]
